@@ -373,6 +373,7 @@ class _Ctx:
         self.clips: List[str] = []
         self.grads: List[str] = []
         self.clip_use_ids: List[str] = []
+        self.nested_depth = 0
 
     def new_id(self, prefix="e"):
         self.nid += 1
@@ -508,7 +509,12 @@ def _gen_nested_svg(draw, cx, depth, hook):
     # written (documented limitation of resolve_nested_svgs: percentages are not resolved against the
     # nearest viewport), so the default is only left to chance directly under the root, where definition
     # and rendering context coincide; anything that may be instanced by <use> elsewhere gets explicit sizes.
-    explicit = depth > 1
+    # An svg written directly inside another nested svg (depth 2 here) has that svg as its nearest viewport wherever
+    # the outer one ends up, so its omitted sizes (= the outer viewBox size, or the outer viewport size without a
+    # viewBox) are well defined again.
+    explicit = depth > 2 or (depth == 2 and cx.nested_depth != 1)
+    if depth == 2 and not explicit:
+        cx.feat.add("nested-in-nested-default-size-allowed")
     w = _size(draw, box, 20, 80) if (explicit or draw(st.integers(0, 3))) else None
     h = _size(draw, box, 20, 80) if (explicit or draw(st.integers(0, 3))) else None
     if w is not None:
@@ -539,9 +545,11 @@ def _gen_nested_svg(draw, cx, depth, hook):
     n = node("svg", a)
     saved = cx.box
     cx.box = inner
+    cx.nested_depth += 1
     k = draw(st.integers(1, 2))
     for _ in range(k):
         n["c"].append(_gen_content(draw, cx, depth + 1, hook, allow_nested=(depth <= 1 and getattr(cx.cfg, "nested_nested", True))))
+    cx.nested_depth -= 1
     cx.box = saved
     cx.feat.add("nested-svg")
     return n
@@ -647,6 +655,12 @@ def _gen_clippath(draw, cx):
         if cx.cfg.transforms and draw(st.integers(0, 3)) == 0:
             ch["a"]["transform"] = draw(transform_list(cx.box))
             cx.feat.add("clip-child-transform")
+        if k > 1 and draw(st.integers(0, 3)) == 0:
+            # paint on a clipPath child is irrelevant: the clip region is the child's raw geometry whether or not
+            # the child would be visible if it were drawn (SVG 1.1 14.3.5)
+            pk, pv = draw(st.sampled_from([("fill", "none"), ("fill-opacity", "0"), ("opacity", "0"), ("fill", "#123456"), ("stroke", "red")]))
+            (ch["a"] if draw(st.booleans()) else ch["s"])[pk] = pv
+            cx.feat.add("clip-child-paint-attr")
         cp["c"].append(ch)
     has_nested = False
     if cx.clips and draw(st.integers(0, 2)) == 0:
